@@ -7,6 +7,7 @@ package watch
 import (
 	"bytes"
 	"context"
+	"errors"
 	"fmt"
 	"io"
 	"log/slog"
@@ -89,10 +90,13 @@ type world struct {
 	rosCalls       int
 	needRebuild    bool
 	savedMidRender bool
-	held           []int // variants the text file has held since c was built
-	lastEdit       time.Time
-	pending        bool // the file was edited after the handler last looked
-	trace          []string
+	// failNextWrite makes the handler's next write of the generated Go file fail; writeFailed
+	// says that it did
+	failNextWrite, writeFailed bool
+	held                       []int // variants the text file has held since c was built
+	lastEdit                   time.Time
+	pending                    bool // the file was edited after the handler last looked
+	trace                      []string
 	// the simulated source file: it lives at the compiled variant's compile-time path and
 	// exists only in this run's model (simos overlay), so parallel worker processes do not collide
 	filePath    string
@@ -154,6 +158,8 @@ func (w *world) note(format string, a ...any) {
 
 var epoch0 time.Time
 
+var errDiskFull = errors.New("sim: no space left on device")
+
 // coldCache is what a restarted program sees: an empty literal cache. The cache is keyed by the
 // text files' paths, so the files move to a fresh root directory (no access to its internals).
 func (w *world) coldCache() {
@@ -199,7 +205,14 @@ func (w *world) stampTextFiles() {
 func (w *world) newHandler() {
 	log := slog.New(slog.NewTextHandler(io.Discard, nil))
 	root := filepath.Dir(filepath.Dir(w.fam.Variants[0].Dir))
-	w.h = generatecmd.NewFSEventHandler(log, root, true, nil, false, true, func(string, []byte) error { return nil }, false)
+	w.h = generatecmd.NewFSEventHandler(log, root, true, nil, false, true, func(string, []byte) error {
+		if w.failNextWrite {
+			// disk fault: the generated Go file cannot be written this time
+			w.failNextWrite, w.writeFailed = false, true
+			return errDiskFull
+		}
+		return nil
+	}, false)
 }
 
 // tick makes sure fake time has moved since the last write (two saves never share an mtime).
@@ -238,7 +251,9 @@ func (w *world) onOSCall(op, path string) {
 			j := w.renderMidVar
 			w.note("save of v%d handled while the program is loading its text file (at its disk call #%d, %s)", j, w.rosCalls-1, op)
 			w.writeSource(j, w.fam.Variants[j].Source)
-			if r, err := w.watch(); err == nil && r.GoUpdated {
+			r, err := w.watch()
+			w.note("  (handled: GoUpdated=%v TextUpdated=%v err=%v)", r.GoUpdated, r.TextUpdated, err != nil)
+			if err == nil && r.GoUpdated {
 				w.needRebuild = true
 			}
 			w.k.Count("fault_save_handled_while_program_loads_text_file", 1)
@@ -461,8 +476,21 @@ func (w *world) run() {
 			if t.Chance(1, 5, "save-during-handling") {
 				w.midAt, w.midVar = t.Choose(6, "mid-at"), t.Choose(len(w.fam.Variants), "mid-var")
 			}
+			w.writeFailed = false
+			if w.fileVar >= 0 && t.Chance(1, 10, "write-of-generated-file-fails") {
+				w.failNextWrite = true
+			}
 			r, err := w.watch()
+			w.failNextWrite = false
 			w.note("watch: GoUpdated=%v TextUpdated=%v err=%v", r.GoUpdated, r.TextUpdated, err != nil)
+			if err != nil && w.writeFailed {
+				// the save has not been dealt with; the user sees the error and saves the file again
+				// (the same content, a new modification time)
+				w.k.Count("fault_write_of_generated_file_failed", 1)
+				w.note("the user saves v%d again", w.fileVar)
+				w.writeSource(w.fileVar, w.fam.Variants[w.fileVar].Source)
+				continue
+			}
 			if err != nil {
 				w.k.Count("fault_unparseable_edit_seen_by_handler", 1)
 				continue
